@@ -26,6 +26,121 @@ def sql_consts(src):
     return out
 
 
+def _norm(t):
+    return re.sub(r"\s+", " ", t).strip()
+
+
+def _split_top(text, sep):
+    """split on a keyword at parenthesis depth 0 (case-insensitive, whole word)"""
+    parts, depth, cur, i = [], 0, "", 0
+    up = text.upper()
+    while i < len(text):
+        c = text[i]
+        if c == "(":
+            depth += 1
+        elif c == ")":
+            depth -= 1
+        if depth == 0 and up.startswith(sep, i) and (i == 0 or not up[i - 1].isalnum()) and (i + len(sep) >= len(text) or not up[i + len(sep)].isalnum()):
+            parts.append(cur)
+            cur = ""
+            i += len(sep)
+            continue
+        cur += c
+        i += 1
+    parts.append(cur)
+    return [p.strip() for p in parts if p.strip()]
+
+
+def _strip_alias(t):
+    return re.sub(r"\b[a-z]\.(?=[a-z_]+)", "", t)
+
+
+def parse_atom(a):
+    a = _norm(_strip_alias(a))
+    m = re.fullmatch(r"([a-z_]+) ?= ?\?(\d+)", a)
+    if m:
+        return ("eqParam", m.group(1), int(m.group(2)))
+    m = re.fullmatch(r"\( ?([a-z_]+) ?= ?\?(\d+) OR \?(\d+) IS NULL ?\)", a, flags=re.I)
+    if m and m.group(2) == m.group(3):
+        return ("eqParamOrNull", m.group(1), int(m.group(2)))
+    if re.fullmatch(r"\( ?expiry IS NULL OR DATETIME\( ?expiry ?\) ?> ?DATETIME\( ?'now' ?\) ?\)", a, flags=re.I):
+        return ("expiryLive",)
+    return ("other", a)
+
+
+def parse_stmt(sql):
+    """very small parser for the eleven fixed statements; raises when the shape is not one it knows"""
+    t = _norm(sql)
+    up = t.upper()
+    st = {"verb": "", "table": "", "policy": "", "cols": [], "where": [], "returning": ""}
+    def where_of(rest):
+        m = re.search(r"\bRETURNING\b (.*)$", rest, flags=re.I)
+        if m:
+            st["returning"] = _norm(m.group(1)).lower()
+            rest = rest[:m.start()]
+        return [parse_atom(x) for x in _split_top(rest, "AND")]
+    if up.startswith("SELECT"):
+        st["verb"] = "select"
+        # the outermost FROM … WHERE (sub-selects are inside parentheses)
+        parts = _split_top(t, "FROM")
+        if len(parts) < 2:
+            raise RuntimeError("SELECT without top-level FROM: " + t)
+        frm = parts[-1]
+        fw = _split_top(frm, "WHERE")
+        st["table"] = fw[0].split()[0].lower()
+        st["where"] = where_of(fw[1]) if len(fw) > 1 else []
+    elif up.startswith("DELETE FROM"):
+        st["verb"] = "delete"
+        rest = t[len("DELETE FROM"):].strip()
+        fw = _split_top(rest, "WHERE")
+        st["table"] = fw[0].split()[0].lower()
+        st["where"] = where_of(fw[1]) if len(fw) > 1 else []
+    elif up.startswith("UPDATE"):
+        st["verb"] = "update"
+        m = re.match(r"UPDATE (\w+) SET (.*?) WHERE (.*)$", t, flags=re.I)
+        if not m:
+            raise RuntimeError("UPDATE shape: " + t)
+        st["table"] = m.group(1).lower()
+        for asg in m.group(2).split(","):
+            mm = re.fullmatch(r"\s*([a-z_]+) ?= ?\?(\d+)\s*", asg)
+            if not mm:
+                raise RuntimeError("UPDATE assignment shape: " + asg)
+            st["cols"].append((mm.group(1), int(mm.group(2))))
+        st["where"] = where_of(m.group(3))
+    elif up.startswith("INSERT"):
+        st["verb"] = "insert"
+        m = re.match(r"INSERT (?:OR (\w+) )?INTO (\w+) ?\(([^)]*)\) VALUES ?\(([^)]*)\)$", t, flags=re.I)
+        if not m:
+            raise RuntimeError("INSERT shape: " + t)
+        st["policy"] = (m.group(1) or "").lower()
+        st["table"] = m.group(2).lower()
+        cols = [c.strip() for c in m.group(3).split(",")]
+        vals = [v.strip() for v in m.group(4).split(",")]
+        for c, v in zip(cols, vals):
+            mm = re.fullmatch(r"\?(\d+)", v)
+            st["cols"].append((c, int(mm.group(1)) if mm else 0))
+    else:
+        raise RuntimeError("unknown statement verb: " + t)
+    return st
+
+
+def lean_atom(a):
+    if a[0] == "eqParam":
+        return f'.eqParam {lean_str(a[1])} {a[2]}'
+    if a[0] == "eqParamOrNull":
+        return f'.eqParamOrNull {lean_str(a[1])} {a[2]}'
+    if a[0] == "expiryLive":
+        return ".expiryLive"
+    return f'.other {lean_str(a[1])}'
+
+
+def lean_stmt(st):
+    cols = ", ".join(f"({lean_str(c)}, {n})" for c, n in st["cols"])
+    atoms = ", ".join(lean_atom(a) for a in st["where"])
+    return (f'{{ verb := {lean_str(st["verb"])}, table := {lean_str(st["table"])}, policy := {lean_str(st["policy"])}, '
+            f'cols := [{cols}], whereAtoms := [{atoms}], returning := {lean_str(st["returning"])} }}')
+
+
 def regenerate(repo, outdir):
     env = {}
     # --- db_utils.rs: PAGE_SIZE
@@ -51,6 +166,16 @@ def regenerate(repo, outdir):
         lines.append(f"def {n[0].lower() + re.sub(r'_(.)', lambda m: m.group(1).upper(), n[1:].lower())} : String := {lean_str(text)}")
     lines += ["", "end Askar.Generated", ""]
     write_if_changed(os.path.join(outdir, "Consts.lean"), "\n".join(lines))
+    # --- parsed statement shapes
+    shapes = ["COUNT_QUERY", "SCAN_QUERY", "FETCH_QUERY", "DELETE_QUERY", "DELETE_ALL_QUERY", "INSERT_QUERY", "UPDATE_QUERY",
+              "TAG_INSERT_QUERY", "TAG_DELETE_QUERY"]
+    out = ["/- GENERATED by tools/extract.py from /repo on every run — do not edit. -/",
+           "import AskarModel.Model.SqlShape", "namespace Askar.Sql.Generated", ""]
+    for n in shapes:
+        lname = n[0].lower() + re.sub(r"_(.)", lambda m: m.group(1).upper(), n[1:].lower())
+        out.append(f"def {lname} : Stmt :=\n  {lean_stmt(parse_stmt(consts[n]))}")
+    out += ["", "end Askar.Sql.Generated", ""]
+    write_if_changed(os.path.join(outdir, "Stmts.lean"), "\n".join(out))
     return env
 
 
